@@ -1,7 +1,7 @@
 (* C08 - dimension freedom: measurements depend on blade counts only modulo 4.  Pinned theorems only. *)
 From Coq Require Import ZArith List Bool Reals Lra.
 From Flocq Require Import Core BinarySingleNaN.
-Require Import GV.FloatBase GV.FloatLemmas GV.AngleM GV.AngleProofs GV.GeonumM GV.GeonumProofs GV.CollM GV.ShiftProofs.
+Require Import GV.FloatBase GV.FloatLemmas GV.AngleM GV.AngleProofs GV.GeonumM GV.GeonumProofs GV.CollM GV.ShiftProofs GV.ShiftResults.
 Open Scope Z_scope.
 
 (* shift4 n a = the same remainder with 4n more blades (n may be negative) *)
@@ -37,3 +37,30 @@ Theorem C08_result_blades : forall a b n m,
   blade (geometric_add (shift4 n a) (shift4 m b)) = blade (geometric_add a b) + 4 * (n + m).
 Proof. exact add_shift. Qed.
 Print Assumptions C08_result_blades.
+
+(* RESULT values under whole-turn shifts of the operands, for EVERY libm, ALL operands and ALL shifts: the product, the
+   wedge and the meet of shifted operands ARE the shifted product / wedge / meet - magnitude and remainder bit-identical,
+   blade count moved by exactly 4(m+n); a dual or a rotation commutes with the shift *)
+Theorem C08_result_values : forall (L : libm) a b n m,
+  gmul_vv (gshift4 m a) (gshift4 n b) = gshift4 (m + n) (gmul_vv a b) /\
+  wedge L (gshift4 m a) (gshift4 n b) = gshift4 (m + n) (wedge L a b) /\
+  meet L (gshift4 m a) (gshift4 n b) = gshift4 (m + n) (meet L a b) /\
+  gdual (gshift4 m a) = gshift4 m (gdual a) /\
+  grotate (gshift4 m a) (shift4 n (ang b)) = gshift4 (m + n) (grotate a (ang b)).
+Proof.
+intros L a b n m. split; [apply gmul_shift|]. split; [apply wedge_shift|]. split; [apply meet_shift|].
+split; [apply gdual_shift|apply grotate_shift].
+Qed.
+Print Assumptions C08_result_values.
+
+(* projection onto a non-negligible axis follows the shift of the AXIS only (the projected operand's own history is dropped,
+   as documented), bit-identical magnitude and remainder *)
+Theorem C08_project_result : forall (L : libm) a b n m, flt (fabs (mag b)) EPSILON = false ->
+  gproject L (gshift4 m a) (gshift4 n b) = gshift4 n (gproject L a b).
+Proof. exact gproject_shift. Qed.
+Print Assumptions C08_project_result.
+
+Theorem C08_shift_def : forall n a g, shift4 n a = {| rem := rem a; blade := blade a + 4 * n |} /\
+  gshift4 n g = {| mag := mag g; ang := shift4 n (ang g) |}.
+Proof. intros; split; reflexivity. Qed.
+Print Assumptions C08_shift_def.
